@@ -17,6 +17,9 @@ verus! {
 
 #[verifier::external_body]
 pub fn fmt_stub() -> String { String::new() }
+/// `s += &t` on strings (message assembly; contents are not modelled)
+#[verifier::external_body]
+pub fn str_append(s: &mut String, t: String) { }
 #[verifier::external_body]
 pub fn rt_assert(b: bool) requires b { }
 #[verifier::external_body]
